@@ -185,14 +185,28 @@ def exec_concurrency(ctx, quick):
     real = realeng.Real(ctx, tag="real04")
     logd = os.path.join(ctx.scratch, "conc04")
     nbad, nrun = 0, 0
-    for (n, f) in ([(6, 2)] if quick else [(6, 2), (7, 3), (5, 1), (9, 4)]):
-        import shutil
+    base = "exec 0<&- 1>&- 2>&-; date +%%s%%N > %(d)s/%%h.s; %(body)s; date +%%s%%N > %(d)s/%%h.e"
+    # (targets, fanout, extra options, what the command does between its two stamps, standard input of pdsh)
+    scen = [(6, 2, [], "sleep 1", None),
+            (4, 1, ["-u", "1"], "sleep 4", None),                                       # outlives the command time-out and a watchdog round
+            (4, 1, [], "sleep 1", "closed"),                                            # pdsh's first connection gets descriptor 0
+            (3, 1, [], "(sleep 2; kill -CONT $$) & kill -STOP $$; sleep 0.3", None)]    # the command is stopped for a while
+    if not quick:
+        scen += [(7, 3, [], "sleep 1", None), (5, 1, [], "sleep 1", None), (9, 4, [], "sleep 1", None), (5, 2, ["-u", "1"], "sleep 4", None)]
+    for (n, f, opts, body, stdin) in scen:
+        import shutil, subprocess
         shutil.rmtree(logd, ignore_errors=True)
         os.makedirs(logd)
-        cmd = "exec 0<&- 1>&- 2>&-; date +%%s%%N > %s/%%h.s; sleep 1; date +%%s%%N > %s/%%h.e" % (logd, logd)
-        rc, o, e = real.run(["-R", "exec", "-f", str(f), "-w", "h[1-%d]" % n, "sh", "-c", cmd], timeout=60)
+        cmd = base % {"d": logd, "body": body}
+        exe = os.path.join(real.dir, "bin", "pdsh")
+        try:
+            p = subprocess.run([exe, "-R", "exec", "-f", str(f)] + opts + ["-w", "h[1-%d]" % n, "sh", "-c", cmd], env={"PATH": "/usr/bin:/bin", "HOME": "/root", "LANG": "C"},
+                               stdout=subprocess.PIPE, stderr=subprocess.PIPE, timeout=90, preexec_fn=(lambda: os.close(0)) if stdin == "closed" else None)
+            rc, o, e = p.returncode, p.stdout, p.stderr
+        except subprocess.TimeoutExpired:
+            rc, o, e = -999, b"", b""
         nrun += 1
-        time.sleep(1.5)         # a command released too early may still be writing its end stamp
+        time.sleep(1.5 if "-u" not in opts else 5.0)         # a command released too early may still be running: let it write its end stamp
         iv = []
         for k in range(1, n + 1):
             try:
@@ -200,7 +214,7 @@ def exec_concurrency(ctx, quick):
             except (OSError, ValueError):
                 iv.append(None)
         problem = None
-        if rc != 0 or any(x is None for x in iv):
+        if rc == -999 or any(x is None for x in iv):
             problem = "pdsh exit %s, start/end stamps %s: a command was not run to its end" % (rc, ["ok" if x else "missing" for x in iv])
         else:
             pts = sorted([(a, 1) for a, b in iv] + [(b, -1) for a, b in iv])
@@ -209,11 +223,11 @@ def exec_concurrency(ctx, quick):
                 cur += d
                 peak = max(peak, cur)
             if peak > f:
-                problem = "%d commands were running at the same instant with fanout %d" % (peak, f)
+                problem = "%d commands were alive at the same instant with fanout %d" % (peak, f)
         if problem:
             nbad += 1
-            ctx.violation("input", case={"transport": "exec", "n": n, "f": f, "command": cmd}, expected="at most %d commands alive at any instant" % f,
-                          observed=problem, engine="exec", detail=problem + " (commands that close their streams early and run for a second)")
+            ctx.violation("input", case={"transport": "exec", "n": n, "f": f, "options": opts, "command": cmd, "stdin": stdin}, expected="at most %d commands alive at any instant" % f,
+                          observed=problem, engine="exec", detail=problem + " (commands that close their streams early; between their stamps: %s)" % body)
     return nrun, nbad
 
 
